@@ -16,6 +16,13 @@ TRAIT_BIT = {'T0': 2, 'T1': 4, 'T2': 8, 'T3': 16}
 NEW_TRAITS = ['N%d' % i for i in range(8)]
 TRAIT_BIT.update({t: 32 << i for i, t in enumerate(NEW_TRAITS)})
 UNKNOWN_TRAIT = 'zz-unknown'
+# the harness' name for the affinity of manifests without an 'affinity' key (masterapi.create_apps does not fill one in, only
+# the instance API does): the scheduler keys them by None - one affinity like any other, with the limits they declare
+NOAFF = '~no-affinity-key'
+
+
+def aff_of(man):
+    return man.get('affinity', NOAFF)
 
 
 def own_mb(spelled):
@@ -672,12 +679,13 @@ class MasterDriver:
     def gen_manifest(self):
         rng = self.rng
         H = self.H
-        retired = [a for a in sorted(H.affinities) if H.affinities[a] and
-                   not any(za['man']['affinity'] == a for za in self.Z['apps'].values())]
-        if (retired and rng.random() < 0.3) or (H.affinities and rng.random() < 0.6):
-            aff = rng.choice(retired) if retired and rng.random() < 0.5 else rng.choice(sorted(H.affinities))
+        named = [a for a in sorted(H.affinities) if a != NOAFF]
+        retired = [a for a in named if H.affinities[a] and
+                   not any(aff_of(za['man']) == a for za in self.Z['apps'].values())]
+        if (retired and rng.random() < 0.3) or (named and rng.random() < 0.6):
+            aff = rng.choice(retired) if retired and rng.random() < 0.5 else rng.choice(named)
             limits = H.affinities[aff]
-            if limits and rng.random() < 0.7 and not any(za['man']['affinity'] == aff for za in self.Z['apps'].values()):
+            if limits and rng.random() < 0.7 and not any(aff_of(za['man']) == aff for za in self.Z['apps'].values()):
                 # every instance of the affinity is gone: the application comes back with its limits on other levels
                 vals = list(limits.values())
                 rng.shuffle(vals)
@@ -698,6 +706,14 @@ class MasterDriver:
             demand[2] += rng.choice([1, 3, 5, 1023])              # not every demand is a round number
         man = {'memory': spell_mb(rng, demand[0]), 'cpu': celldrv.spell_cpu(rng, demand[1]),
                'disk': spell_mb(rng, demand[2]), 'affinity': aff}
+        if rng.random() < 0.06:
+            # a manifest written without the 'affinity' key (it is optional in the schema)
+            del man['affinity']
+            aff = NOAFF
+            if NOAFF not in H.affinities or not any(aff_of(za['man']) == NOAFF for za in self.Z['apps'].values()):
+                H.affinities[NOAFF] = {lv: rng.choice([1, 1, 2]) for lv in ('server', 'rack', 'pod', 'cell') if rng.random() < 0.5}
+            limits = H.affinities[NOAFF]
+            self.mon.count('manifests_without_affinity_key')
         if limits:
             man['affinity_limits'] = dict(limits)
         if rng.random() < 0.8:
@@ -1227,7 +1243,7 @@ class MasterDriver:
                 prio = man['priority']
             bl = any(glob_match(b, base) for b in Z['blacklist'])
             H.apps[name] = dict(
-                name=name, demand=list(za['demand']), priority=prio, affinity=man['affinity'],
+                name=name, demand=list(za['demand']), priority=prio, affinity=aff_of(man),
                 limits=dict(man.get('affinity_limits', {})), lease=own_secs(man.get('lease', '0s')),
                 retention=own_secs(man.get('data_retention_timeout')), group=man.get('identity_group'),
                 once=bool(man.get('schedule_once')), traits=trait_bits(man.get('traits')),
